@@ -353,6 +353,14 @@ func checkC14(R *Run) {
 					if sl, ok := src.(*ssa.Slice); ok && sl.Low == nil && sl.High != nil && sameLength(sl.High, d.Len) && (sl.X == ssa.Value(data)) {
 						copied = true
 					}
+					// the buffer is min(len(data), K) long and filled from data itself: copy fills all of it with data's head
+					if mc, ok := stripConv(d.Len).(*ssa.Call); ok && calleeName(&mc.Call) == "builtin.min" && src == ssa.Value(data) {
+						for _, a := range mc.Call.Args {
+							if m, isL := isLen(stripConv(a)); isL && m == ssa.Value(data) {
+								copied = true
+							}
+						}
+					}
 				}
 				if !copied {
 					problems = append(problems, "the bytes stored are not the value whose length is put in the prefix")
